@@ -71,12 +71,15 @@ def virtual_case(seed: int, idx: int, res: UnitResult) -> None:
         calls: list = []          # (clock, state)
         escaped: list = []
 
+        none_at = r.choice([None, None, 1, 2, 3])         # the action RETURNS None at this call: the next state is None
+
         def action(state: Any) -> Any:
             calls.append((clock(), state))
             if raise_at is not None and len(calls) == raise_at:
                 raise ValueError("periodic action failed")
-            return (state, len(calls))
+            return None if len(calls) == none_at else (state, len(calls))
         holder: dict = {}
+        case["none_at"] = none_at
 
         def start(sch: Any, st: Any) -> None:
             holder["d"] = s.schedule_periodic(rel(period), action, init)
@@ -105,8 +108,10 @@ def virtual_case(seed: int, idx: int, res: UnitResult) -> None:
             exp.append((t, state))
             if raise_at is not None and k == raise_at:
                 break
-            state = (state, k)
+            state = None if k == none_at else (state, k)
             k += 1
+        if none_at is not None and len(exp) > none_at:
+            res.count("periodic_runs_continuing_with_state_None")
         if raise_at is not None:
             res.count("raising_cases")
         got = calls
@@ -181,7 +186,7 @@ def virtual_case(seed: int, idx: int, res: UnitResult) -> None:
 def gen_program(r: Any, kind: str) -> dict:
     period = r.choice([0.1, 0.2, 0.5])
     return {"kind": kind, "period": period, "period_as": r.choice(["float", "timedelta"]), "init": r.choice([None, 0, 5]),
-            "work": r.choice([0.0, 0.0, 0.0, period / 4, period, period * 1.5]), "raise_at": r.choice([None, None, 2, 3]),
+            "work": r.choice([0.0, 0.0, 0.0, period / 4, period, period * 1.5]), "raise_at": r.choice([None, None, 2, 3]), "none_at": r.choice([None, None, 1, 2]),
             "dispose_after": r.choice([None, period * 2.5, period * 3, period * 0.5, period * 4.25]), "handler": r.choice([True, True, False]),
             "horizon": period * r.choice([5, 6])}
 
@@ -255,7 +260,7 @@ def scenario(c: Any, P: dict) -> dict:
             c.sleep(P["work"])
         if P["raise_at"] is not None and len(calls) == P["raise_at"]:
             raise ValueError("periodic action failed")
-        return (state, len(calls))
+        return None if len(calls) == P.get("none_at") else (state, len(calls))
 
     p_arg = datetime.timedelta(seconds=period) if P["period_as"] == "timedelta" else period
     d = s.schedule_periodic(p_arg, action, P["init"])
@@ -304,7 +309,7 @@ def scenario(c: Any, P: dict) -> dict:
         if st != state or type(st) is not type(state):
             viol.append(("C35:%s:state-not-threaded" % kind, {"k": k, "expected": repr(state), "got": repr(st)}))
             break
-        state = (state, k)
+        state = None if k == P.get("none_at") else (state, k)
         if clock < t0 + k * period - 1e-6:
             viol.append(("C35:%s:invocation-before-k-times-period" % kind, {"k": k, "clock": clock - t0}))
         # (a thread that was descheduled for a stretch of virtual time inside schedule_periodic shifts the whole grid:
